@@ -30,7 +30,9 @@ func (w *word[T]) Load() T {
 	if s.IsAborting() {
 		return w.v
 	}
-	if !w.quiet {
+	if w.quiet {
+		s.QuietOp()
+	} else {
 		s.Point(vrt.KAtomicLoad, &w.obj, nil)
 	}
 	v := w.v
@@ -44,7 +46,9 @@ func (w *word[T]) Store(v T) {
 		w.v = v
 		return
 	}
-	if !w.quiet {
+	if w.quiet {
+		s.QuietOp()
+	} else {
 		s.Point(vrt.KAtomicStore, &w.obj, nil)
 	}
 	w.v = v
@@ -57,7 +61,9 @@ func (w *word[T]) Add(d T) T {
 		w.v += d
 		return w.v
 	}
-	if !w.quiet {
+	if w.quiet {
+		s.QuietOp()
+	} else {
 		s.Point(vrt.KAtomicRMW, &w.obj, nil)
 	}
 	w.v += d
@@ -72,7 +78,9 @@ func (w *word[T]) Swap(v T) T {
 		w.v = v
 		return old
 	}
-	if !w.quiet {
+	if w.quiet {
+		s.QuietOp()
+	} else {
 		s.Point(vrt.KAtomicRMW, &w.obj, nil)
 	}
 	old := w.v
@@ -90,7 +98,9 @@ func (w *word[T]) CompareAndSwap(old, new T) bool {
 		}
 		return false
 	}
-	if !w.quiet {
+	if w.quiet {
+		s.QuietOp()
+	} else {
 		s.Point(vrt.KAtomicRMW, &w.obj, nil)
 	}
 	ok := w.v == old
@@ -112,7 +122,9 @@ func (w *word[T]) SetName(n string) { w.obj.Name = n }
 func (w *word[T]) And(mask T) T { // Go 1.23 API
 	s := vrt.Cur()
 	if !s.IsAborting() {
-		if !w.quiet {
+		if w.quiet {
+			s.QuietOp()
+		} else {
 			s.Point(vrt.KAtomicRMW, &w.obj, nil)
 		}
 	}
@@ -125,7 +137,9 @@ func (w *word[T]) And(mask T) T { // Go 1.23 API
 func (w *word[T]) Or(mask T) T {
 	s := vrt.Cur()
 	if !s.IsAborting() {
-		if !w.quiet {
+		if w.quiet {
+			s.QuietOp()
+		} else {
 			s.Point(vrt.KAtomicRMW, &w.obj, nil)
 		}
 	}
@@ -163,7 +177,9 @@ func (b *Bool) Load() bool {
 	if s.IsAborting() {
 		return b.v
 	}
-	if !b.quiet {
+	if b.quiet {
+		s.QuietOp()
+	} else {
 		s.Point(vrt.KAtomicLoad, &b.obj, nil)
 	}
 	v := b.v
@@ -177,7 +193,9 @@ func (b *Bool) Store(v bool) {
 		b.v = v
 		return
 	}
-	if !b.quiet {
+	if b.quiet {
+		s.QuietOp()
+	} else {
 		s.Point(vrt.KAtomicStore, &b.obj, nil)
 	}
 	b.v = v
@@ -191,7 +209,9 @@ func (b *Bool) Swap(v bool) bool {
 		b.v = v
 		return old
 	}
-	if !b.quiet {
+	if b.quiet {
+		s.QuietOp()
+	} else {
 		s.Point(vrt.KAtomicRMW, &b.obj, nil)
 	}
 	old := b.v
@@ -209,7 +229,9 @@ func (b *Bool) CompareAndSwap(old, new bool) bool {
 		}
 		return false
 	}
-	if !b.quiet {
+	if b.quiet {
+		s.QuietOp()
+	} else {
 		s.Point(vrt.KAtomicRMW, &b.obj, nil)
 	}
 	ok := b.v == old
